@@ -375,7 +375,8 @@ def run_records(V, tables, tier):
             raise MachineryError("family %s has only %d records (expected at least %d)" % (fam, fam_n.get(fam, 0), least))
         if fam_eval.get(fam, 0) * 2 < fam_n[fam]:
             raise MachineryError("family %s: only %d of %d round trips returned at all" % (fam, fam_eval.get(fam, 0), fam_n[fam]))
-    rejects, states, wall = tlc.validate_batches("c08/rec", "ExchangeRecords", recs, CFG_REC, timeout=1200)
+    rejects, states, wall = tlc.validate_batches("c08/rec", "ExchangeRecords", recs, CFG_REC, timeout=1200,
+                                                 shards=4 if tier == "quick" else 16)
     by_id = {r["id"]: r for r in recs}
     napp = 0
     for cid, clause in sorted(rejects.items()):
@@ -402,23 +403,31 @@ def run_records(V, tables, tier):
 
 
 def main(argv):
+    import time
     tier = tier_from_args(argv)
     V = Verdict(PROP, tier)
     tm = import_trimesh()
+    phase, t0 = {}, time.time()
+
+    def lap(name):
+        nonlocal t0
+        phase[name] = round(time.time() - t0, 1)
+        t0 = time.time()
     d = tlc.prepare("c08/mc")
     r = tlc.must(tlc.run(d, "Exchange", cfg(2 if tier == "quick" else 3, ["Idempotent", "Monotone", "Commute", "MeetOfChain"])), "algebra")
     states, trans = r.distinct, r.generated
-    rt = tlc.must(tlc.run(d, "Exchange", cfg(0, ["EmitTables"]), workers=1, timeout=600), "tables")
-    tabs = [x for x in rt.printed if isinstance(x, dict) and "mesh" in x]
+    lap("tlc_algebra")
+    hops = 2 if tier == "quick" else 3
+    r2 = tlc.must(tlc.run(d, "Exchange", cfg(hops, ["Emit", "EmitTables"]), workers=1, timeout=1800), "emit")
+    tabs = [x for x in r2.printed if isinstance(x, dict) and "mesh" in x]
     if len(tabs) != 1:
         raise MachineryError("capability tables not emitted")
     tables = tabs[0]
     R.check_tables(tables)
-    hops = 2 if tier == "quick" else 3
-    r2 = tlc.must(tlc.run(d, "Exchange", cfg(hops, ["Emit"]), workers=1, timeout=1800), "emit")
     chains = [x for x in r2.printed if isinstance(x, dict) and "hops" in x]
     states += r2.distinct
     trans += r2.generated
+    lap("tlc_emit_chains")
     nfmt = len(tables["mesh"])
     if len(chains) < 2 * (nfmt + nfmt * nfmt):
         raise MachineryError("too few chains: %d" % len(chains))
@@ -446,8 +455,11 @@ def main(argv):
     for x in res:
         for f in x[0]:
             V.violation("mesh:" + f["clause"], f)
+    lap("replay_chains")
     n_other, kinds = other_kinds(tm, V)
+    lap("legacy_other_kinds")
     rec_cov, rec_samples = run_records(V, tables, tier)
+    lap("records_and_validation")
     states += rec_cov["validator_states"]
     trans += rec_cov["validator_states"]
     distinct = len({(s, tuple(h["fmt"] for h in ch)) for s, ch in work}) + len(kinds) + rec_cov["records"]
@@ -459,7 +471,7 @@ def main(argv):
                    "distinct = distinct (geometry, format chain) pairs + records" % (hops, nfmt, sum(len(v) for v in CHAIN_SEEDS.values())),
            "states": states, "transitions": trans, "chains": nchains, "hops": nhops, "other_kind_round_trips": n_other,
            "traces_validated_against_impl": nchains + rec_cov["records"],
-           "variants": {k: len(v) for k, v in R.VARIANTS.items()},
+           "variants": {k: len(v) for k, v in R.VARIANTS.items()}, "phase_wall_s": phase,
            "samples": [[h["fmt"] for h in chains[len(chains) // 2]["hops"]], [h["fmt"] for h in chains[-1]["hops"]],
                        sorted(map(list, kinds))[:5]] + rec_samples}
     cov.update(rec_cov)
